@@ -41,7 +41,7 @@ CLAUSES = {"join": "valid distinct address recorded under its ID within the time
            "lookup": "master's current mapping, trivial answers, -2 / -1 codes", "undisturbed": "asking never disturbs the master",
            "release": "back to the unassigned address, lease freed", "connected": "check_connection() True exactly for connected nodes",
            "safe": "with loss: no exception, termination, valid-or-None"}
-PROBES = ["collision", "serialised_call_checked", "join_via_relay", "join_at_level_4", "master_mcu_stopped", "orphan_rejoined", "fault:mcu_stall_on_rx", "master_busy_during_check", "peer_mcu_stopped", "relay_closed_during_exchange"]
+PROBES = ["collision", "serialised_call_checked", "join_via_relay", "join_at_level_4", "master_mcu_stopped", "orphan_rejoined", "fault:mcu_stall_on_rx", "master_busy_during_check", "peer_mcu_stopped", "relay_closed_during_exchange", "fault:outage_during_call"]
 SHRINK_KEYS = ("joiners", "faults")
 CHUNK = 2
 MAX_INCONCLUSIVE = 0.03
@@ -227,6 +227,30 @@ def make(i, base_seed, tier):
         jb = {"id": idb, "cls": "mesh", "offset_ms": 0, "knobs": kb, "ops": [{"op": "renew", "timeout": 10.0}, {"op": "lookup_address", "id": idb}]}
         scn.update(serial=True, lossy=False, faults=[], prefill={str(k): v for k, v in pf.items()}, joiners=[ja, jb], family="relay_closes",
                    close_on_rx={"ptype": 128, "relay_id": ida, "for_id": idb})
+    if not big and 0.46 <= fam < 0.54:
+        ids3 = xr.sample(range(1, 256), 3)
+        fake = [x for x in range(1, 256) if x not in ids3]
+        xr.shuffle(fake)
+        kn = [knobs() for _ in range(3)]
+        for k_ in kn + [scn["master_knobs"]]:
+            k_.pop("stall_prob", None)
+            k_.pop("stall_us", None)
+        if fam < 0.5:
+            # (outage) a connected node's call meets a complete outage of the medium (its release / message to the master fails
+            # honestly), the medium heals, the node looks its own ID up: nothing of the failed call may reach the master afterwards -
+            # the lookup is answered from the table as it stood, and asking changes nothing in it
+            js = [{"id": ids3[k_], "cls": "mesh", "offset_ms": 0, "knobs": kn[k_], "ops": [{"op": "renew", "timeout": 10.0}]} for k_ in range(xr.randint(1, 2))]
+            scn.update(serial=True, lossy=False, faults=[], prefill={}, joiners=js, family="outage",
+                       outage={"during": xr.choice(["release", "release", "send", "check"]), "len": xr.choice([0, 5, 24, 40]), "type": xr.choice([1, 33, 70]),
+                               "seed": xr.getrandbits(20), "then": xr.choice(["lookup_address", "lookup_address", "check", "lookup_node_id"])})
+        else:
+            # (two_relays) level 1 is full with two real relays A and B (the other slots are static leases); C has to join below
+            # them and both relays answer its poll.  No fault at all: the join completes and the table agrees with what C uses
+            d = xr.sample(range(1, 6), 2)
+            pf = {fake.pop(): a_ for a_ in range(1, 6) if a_ not in d}
+            js = [{"id": ids3[k_], "cls": "mesh", "offset_ms": 0, "knobs": kn[k_], "ops": [{"op": "renew", "timeout": 10.0}]} for k_ in range(3)]
+            js[2]["ops"].append({"op": "lookup_address", "id": ids3[2]})
+            scn.update(serial=True, lossy=False, faults=[], prefill={str(k_): v for k_, v in pf.items()}, joiners=js, family="two_relays")
     return scn
 
 
@@ -371,6 +395,55 @@ def _run(scn, w, res):
                         "check_connection(%d, ping_master=True) on connected id %d = %r after %.0f ms: the master's application was busy for %.0f ms (one lookup window is 135 ms), "
                         "the remaining attempts were not used" % (bz["attempts"], nid, c.result, (c.t1 - c.t0) / MS, bz["ms"]))
             cmds.setdefault(nid, []).append(({"op": "pause"}, c))
+    if scn.get("family") == "outage" and scn.get("outage"):
+        og = scn["outage"]
+        nid = scn["joiners"][0]["id"]
+        nc_ = net.nodes[nid]
+        if all(net.nodes[j_["id"]].node.node_address != 0o4444 for j_ in scn["joiners"]):
+            table0 = dict(mnc.node.dhcp_dict)
+            addr0 = nc_.node.node_address
+            w.air.blackout = True
+            sim.count("fault:outage_during_call")
+            if og["during"] == "release":
+                c = net.post(nid, "release", lambda node: node.release_address())
+            elif og["during"] == "send":
+                c = net.post(nid, "send", lambda node: node.send(0, og["type"], payload(og["seed"], og["len"])))
+            else:
+                c = net.post(nid, "check", lambda node: node.check_connection(1, True))
+            net.wait(c, timeout=120 * SEC, step=MS)
+            w.air.blackout = False
+            net.wait_quiet(quiet=10 * MS, timeout=2 * SEC, step=MS)
+            if not c.done or c.exc is not None:
+                res.add("safe", {"kind": "call_raised" if c.done else "call_did_not_return", "op": og["during"], "exc": type(c.exc).__name__},
+                        "%s during an outage raised %r / did not return\n%s" % (og["during"], c.exc, (c.tb or "")[-1500:]))
+            elif c.result not in (False, None, -1) and not (og["during"] == "check" and c.result is False):
+                res.add("lookup" if og["during"] != "send" else "reach", {"kind": "success_during_outage", "op": og["during"]},
+                        "%s returned %r although nothing the node transmitted reached anybody" % (og["during"], c.result))
+            elif nc_.node.node_address == addr0:
+                table1 = dict(mnc.node.dhcp_dict)
+                if og["then"] == "lookup_address":
+                    c2 = net.post(nid, "lookup_address", lambda node: node.lookup_address(nid))
+                    want = table1.get(nid, -2)
+                elif og["then"] == "lookup_node_id":
+                    c2 = net.post(nid, "lookup_node_id", lambda node: node.lookup_node_id(addr0))
+                    want = nid
+                else:
+                    c2 = net.post(nid, "check", lambda node: node.check_connection(2, True))
+                    want = True
+                net.wait(c2, timeout=120 * SEC, step=MS)
+                net.wait_quiet(quiet=20 * MS, timeout=2 * SEC, step=MS)
+                table2 = dict(mnc.node.dhcp_dict)
+                if table2 != table1 or table1 != table0:
+                    res.add("undisturbed", {"kind": "table_changed_by_lookup", "after": og["during"]},
+                            "id %d: %s failed during an outage (returned %r); after the medium healed %s changed the master's table from %r to %r"
+                            % (nid, og["during"], c.result, og["then"], table1, table2))
+                elif c2.done and c2.exc is None and c2.result != want:
+                    res.add("lookup" if og["then"] != "check" else "connected", {"kind": "wrong_answer_after_outage", "op": og["then"]},
+                            "id %d at %o: %s = %r after a %s that failed during an outage; the master's table says %r (idle loss-free network)"
+                            % (nid, addr0, og["then"], c2.result, og["during"], table1))
+                elif not c2.done or c2.exc is not None:
+                    res.add("safe", {"kind": "call_raised" if c2.done else "call_did_not_return", "op": og["then"], "exc": type(c2.exc).__name__},
+                            "%s raised %r / did not return\n%s" % (og["then"], c2.exc, (c2.tb or "")[-1500:]))
     if scn.get("family") == "peer_down" and scn.get("peer_down"):
         pd = scn["peer_down"]
         ida, idb, idc = [j["id"] for j in scn["joiners"]]
